@@ -58,7 +58,7 @@ def deep(real):
     return out
 
 
-READONLY = ("nbrs", "flinks", "bft", "dftr", "dfti", "bfs", "dfsr", "dfsi", "plain", "puml", "pyvis", "dumps",
+READONLY = ("nbrs", "flinks", "bft", "dftr", "dfti", "bfs", "dfsr", "dfsi", "plain", "puml", "pyvis", "pyvisd", "pyvisc", "dumps",
             "getlinks", "getunis", "getmembers", "getends", "getwl")
 
 
@@ -83,8 +83,8 @@ def readonly_ops(p, rng, faults=True):
                                                     rng.choice(["-", mt]), rng.choice(["-", mt]), rng.choice(["list", "gen"])))
             ops.append("%s %s %s 0 %d" % (rng.choice(["bfs", "dfsr", "dfsi"]), uni, v, rng.choice([0, 1])))
     for u in us:
-        ops.append("plain %s %s %s" % (u, rng.choice(["tok", "repr"]), rng.choice(["-", "1", "3"])))
-        ops.append("puml %s %d" % (u, rng.choice([0, 1, 3])))
+        ops.append("plain %s %s %s" % (u, rng.choice(["tok", "repr"]), rng.choice(["-", "1", "2"])))
+        ops.append("puml %s %d" % (u, rng.choice([0, 1, 2, 3, 4, 5])))
         ops.append("pyvis %s %s" % (u, rng.choice(["-", "e"])))
     return ops
 
